@@ -22,15 +22,25 @@ def _observer_units(mode):
     return out
 
 
+def _read_units():
+    out = []
+    for cls in ('DynGraph', 'DynDiGraph'):
+        out.append(('contracts.readside', 'TemporalSnapshotsIds', (cls,), {}))
+        for t in ('int', 'none'):
+            out.append(('contracts.readside', 'InteractionsPerSnapshots', (cls,), {'t': t}))
+    return out
+
+
 # property id -> list of (module, factory, args, variant)
 PROOF_UNITS = {
     'C01': _kernel_units('removal') + _observer_units('removal'),
     'C03': _kernel_units('removal'),
-    'C04': _kernel_units('removal'),
+    'C04': _kernel_units('removal') + _read_units(),
     'C05': _kernel_units('removal') + [('contracts.kernel', 'AddInteraction', (cls,), {'mode': 'removal', 't': 'int', 'e': e, 'inv': 'strong'})
                                        for cls in ('DynGraph', 'DynDiGraph') for e in ('none', 'int')],
     'C07': _kernel_units('removal') + _kernel_units('accum'),
     'C08': _kernel_units('accum') + _observer_units('accum'),
+    'C18': [('contracts.pure', 'CompactTimeslot', (), {})],
 }
 
 # property id -> list of bounded part names (functions in bounded/parts.py)
@@ -55,7 +65,7 @@ BOUNDED_PARTS = {
 LEVELS = {
     'C01': 'other', 'C03': 'other', 'C04': 'other', 'C05': 'other', 'C07': 'other', 'C08': 'other',
     'C02': 'exploration', 'C06': 'exploration', 'C16': 'exploration', 'C17': 'exploration', 'C19': 'exploration',
-    'C09': 'exploration', 'C10': 'exploration', 'C11': 'exploration', 'C18': 'exploration',
+    'C09': 'exploration', 'C10': 'exploration', 'C11': 'exploration', 'C18': 'other',
 }
 
 EXPLANATIONS = {
